@@ -47,6 +47,9 @@ Accepted ==
                                      /\ recs'[1] # -1 => (EpochBound => recs'[1] >= total)
                                      /\ recs'[2] # -1 => recs'[2] = total' - 1
             /\ recs'[1] # -1 /\ recs'[2] # -1 => recs'[1] <= recs'[2]
+            \* a recommendation STARTS only in an update that itself reports warning or drift, and it starts at that very sample
+            \* (detectors whose recommendation is bound to the epoch; ADWIN's is its window)
+            /\ (EpochBound /\ recs[1] = -1 /\ recs'[1] # -1) => (state' # "None" /\ recs'[1] = total' - 1)
        ELSE recs' = recs
 
 (* the call is refused (exception): nothing observable changes *)
